@@ -5,9 +5,6 @@ import DendroModel.Theory.C02Fuel
 namespace DendroModel.C02
 open DendroModel.Tables
 
-/-- one written tree: rooting code, weight text, tree -/
-abbrev WT := Nat × Option Str × NT
-
 def stmtText (o : WOpts) (x : WT) : Str := writeTree o x.1 x.2.1 x.2.2
 
 /-- what `as_string` produces for a tree list: every statement followed by a newline -/
